@@ -33,6 +33,9 @@ def run(check: Check, repo: Repo, tier: str) -> None:
     mods = [m for m in repo.package_modules("validation.rules") if ".custom" not in m.name]
     V.error_discipline(check, repo, mods)
     V.parallel_stacks(check, repo, classes)
+    from rules import coercion_rules as K
+    K.field_requiredness(check, repo)
+    K.variable_arm(check, repo)
     V.operation_scoped(check, repo, mods)
     check.floor("OPERATION-SCOPED", 2, "per-operation containers of validation rules")
     from rules import merge_rules as M
